@@ -435,6 +435,15 @@ func progRun(c progCase, mode string, st *fw.Stats) []fw.Viol {
 					} else if m.NotAllowed == nil && code != 405 {
 						add("order:notallowed-status", fmt.Sprintf("program [%s]: default not-allowed handler should answer 405, got %d", ps, code))
 					}
+					// ... and an OPTIONS request for the same path (the built-in responder answers it by itself): the
+					// global middleware still runs around it
+					st.Evals++
+					got, _, pv = request("OPTIONS", rt.Req)
+					if pv != nil {
+						add("request:panic", fmt.Sprintf("program [%s]: OPTIONS request panicked: %v", ps, pv))
+					} else if evString(got) != evString(want) {
+						add("order:notallowed-options", fmt.Sprintf("program [%s]: OPTIONS %s (global %v, NotAllowed %v): %s", ps, rt.Req, m.Global, m.NotAllowed, diffEvents(got, want)))
+					}
 					break
 				}
 			}
